@@ -67,6 +67,11 @@ def build(verbose=False):
         rc, log = sh("timeout 1500 make -k -j16 2>&1", cwd=COQ, timeout=1600)
         failed = [f for f in fs if not os.path.exists(os.path.join(COQ, f + "o"))
                   or os.path.getmtime(os.path.join(COQ, f + "o")) < os.path.getmtime(os.path.join(COQ, f))]
+        # a file whose recompilation failed keeps its old .vo: read make's own report as well
+        import re
+        for m in re.finditer(r"\*\*\* \[[^\]]*?([A-Za-z0-9_/]+)\.vo\] Error", log):
+            f = m.group(1) + ".v"
+            if f in fs and f not in failed: failed.append(f)
         drv_ok = False
         ml = os.path.join(COQ, "extracted", "model.ml")
         drv = os.path.join(OCAML, "driver")
